@@ -98,7 +98,10 @@ def two_node_plan(v):
         {"id": 1, "runtime": v["runtime"], "role": "sink", "version": 0},
     ]
     events = [{"t": 1, "type": "tick", "node": 0, "value": v["value"], "dst": [1], "lat": [1], "relay_lat": [1]}]
-    return {"world": "fleet", "seed": plan.get("seed"), "hashseed": plan.get("hashseed", 1), "lineage": lineage, "steps": [], "nodes": nodes, "events": events}
+    out = {"world": "fleet", "seed": plan.get("seed"), "hashseed": plan.get("hashseed", 1), "lineage": lineage, "steps": [], "nodes": nodes, "events": events}
+    if plan.get("split"):
+        out["split"] = plan["split"]
+    return out
 
 
 def reachable_defs(s):
